@@ -98,6 +98,8 @@ DOMNodeImpl::DOMNodeImpl(DOMNode* containingNode, const DOMNodeImpl &other)
 
     this->flags = other.flags;
     this->isReadOnly(false);
+    // the copy has no siblings yet
+    this->isFirstChild(false);
 
     // Need to break the association w/ original parent
     this->fOwnerNode = other.getOwnerDocument();
